@@ -50,7 +50,12 @@ class Rendered:
 def render_tmpl(t: Tmpl, r: Rendered) -> str:
     out = []
     for p in t.parts:
-        out.append(p if isinstance(p, str) else r.marker(p))
+        if isinstance(p, str):
+            out.append(p)
+        elif p.more:
+            r.marker(p)  # registered (so rules can see it) but renders as no further element
+        else:
+            out.append(r.marker(p))
     return "".join(out)
 
 
